@@ -82,14 +82,14 @@ theorem foldl_dictSet_skip (f : Props → String × Props → Props) (a : String
     · simp [List.foldl, ih]
 
 theorem effProps_stick_other (a b : String) (v : Props) (pm : PropMap) (kw : Props)
-    (hab : b ≠ a) (hstar : a.contains '*' = false) :
+    (hab : b ≠ a) (hstar : a.toList.contains '*' = false) :
     effProps b (dictSet a v pm) kw = effProps b pm kw := by
   unfold effProps
   rw [lookup_dictSet_ne a b v hab]
   simp only []
   rw [foldl_dictSet_skip]
   intro acc v'
-  simp [hstar]
+  simp only [hstar, Bool.false_and, Bool.false_eq_true, if_false]
 
 /-! ### what a read leaves alone -/
 
